@@ -403,6 +403,8 @@ class Canonicalizer:
         except RecursionError:
             pass
         try:
+            self._functional_forms(new)
+            set_parents(new, owner)
             for _ in range(40):
                 if not (self._hoist_round(mod, new, fn) or self._inline_round(mod, new, fn)):
                     break
@@ -993,6 +995,34 @@ class Canonicalizer:
                     return ast.copy_location(comp, node)
                 return node
         new.body = [_F().visit(st) for st in new.body]
+        # functools.reduce(f, xs, init) at statement level -> the fold loop
+        for blk in [n for n in ast.walk(new) if isinstance(getattr(n, "body", None), list)]:
+            for field in ("body", "orelse", "finalbody"):
+                stmts = getattr(blk, field, None)
+                if not isinstance(stmts, list):
+                    continue
+                i = 0
+                while i < len(stmts):
+                    st = stmts[i]
+                    call = st.value if isinstance(st, (ast.Expr, ast.Assign, ast.Return)) and isinstance(getattr(st, "value", None), ast.Call) else None
+                    if call is not None and ((isinstance(call.func, ast.Attribute) and call.func.attr == "reduce" and isinstance(call.func.value, ast.Name) and call.func.value.id == "functools")
+                                             or (isinstance(call.func, ast.Name) and call.func.id == "reduce")) and len(call.args) == 3 and not call.keywords \
+                            and isinstance(call.args[0], ast.Name) and (not isinstance(st, ast.Assign) or (len(st.targets) == 1 and isinstance(st.targets[0], ast.Name))):
+                        f, xs, init = call.args
+                        acc = st.targets[0].id if isinstance(st, ast.Assign) else f"_acc{next(_counter)}"
+                        it = f"_it{next(_counter)}"
+                        a0 = ast.copy_location(ast.Assign(targets=[ast.Name(id=acc, ctx=ast.Store())], value=init, lineno=st.lineno), st)
+                        step = ast.Assign(targets=[ast.Name(id=acc, ctx=ast.Store())],
+                                          value=ast.Call(func=clone(f), args=[ast.Name(id=acc, ctx=ast.Load()), ast.Name(id=it, ctx=ast.Load())], keywords=[]), lineno=st.lineno)
+                        lp = ast.copy_location(ast.For(target=ast.Name(id=it, ctx=ast.Store()), iter=xs, body=[ast.copy_location(step, st)], orelse=[], lineno=st.lineno), st)
+                        repl = [a0, lp]
+                        if isinstance(st, ast.Return):
+                            repl.append(ast.copy_location(ast.Return(value=ast.Name(id=acc, ctx=ast.Load())), st))
+                        stmts[i:i + 1] = repl
+                        self.notes.append(f"turned a reduce() into its fold loop in {new.name}")
+                        i += len(repl)
+                        continue
+                    i += 1
         ast.fix_missing_locations(new)
 
     # ------------------------------------------------------------------ comprehensions at statement level -> loops
@@ -1198,9 +1228,21 @@ class Canonicalizer:
                                     # moving the call into the statement must not move it past another effectful evaluation of that statement: every call that is
                                     # evaluated before the use (comes first in source order and does not contain the use) has to be pure
                                     use = next(n for n in ast.walk(nxt) if isinstance(n, ast.Name) and n.id == x and isinstance(n.ctx, ast.Load))
-                                    upos = (use.lineno, use.col_offset)
-                                    earlier = [n for n in ast.walk(nxt) if isinstance(n, ast.Call) and (n.lineno, n.col_offset) < upos and not any(y is use for y in ast.walk(n))]
-                                    single_use_call = all(self._pure(n) for n in earlier)
+                                    done: List[ast.AST] = []      # nodes whose evaluation is complete when `use` is read (structural order; positions of moved code are stale)
+
+                                    def post(n_) -> bool:
+                                        if n_ is use:
+                                            return True
+                                        kids = list(ast.iter_child_nodes(n_))
+                                        if isinstance(n_, (ast.Assign, ast.AugAssign, ast.AnnAssign)):
+                                            kids = [k_ for k_ in kids if k_ is getattr(n_, "value", None)] + [k_ for k_ in kids if k_ is not getattr(n_, "value", None)]
+                                        for k_ in kids:
+                                            if post(k_):
+                                                return True
+                                        done.append(n_)
+                                        return False
+                                    post(nxt)
+                                    single_use_call = all(self._pure(n) for n in done if isinstance(n, ast.Call))
                 if (self._pure(st.value) or single_use_literal or single_use_call) and self._stable(st.value, st, stores, params, new):
                     cands.append((x, st))
         if not cands:
